@@ -20,8 +20,14 @@ pub(super) fn write_data(dst: &mut Vec<u8>, data: DataRef<'_>) -> io::Result<()>
 
 fn write_field_encoded_data(dst: &mut Vec<u8>, src: &[u8]) -> io::Result<()> {
     if is_valid(src)? {
-        dst.extend(src);
-        Ok(())
+        let mut buf = src;
+
+        // Like `write_generic_data`, the CIGAR field is only ever written from the CIGAR.
+        validate(&mut buf, |field| {
+            if field[..2] != Tag::CIGAR.as_ref()[..] {
+                dst.extend(field);
+            }
+        })
     } else {
         Err(io::Error::from(io::ErrorKind::InvalidInput))
     }
@@ -46,12 +52,17 @@ where
 
 fn is_valid(src: &[u8]) -> io::Result<bool> {
     let mut buf = src;
-    validate(&mut buf)?;
+    validate(&mut buf, |_| {})?;
     Ok(true)
 }
 
-fn validate(src: &mut &[u8]) -> io::Result<()> {
+fn validate<F>(src: &mut &[u8], mut f: F) -> io::Result<()>
+where
+    F: FnMut(&[u8]),
+{
     while !src.is_empty() {
+        let buf = *src;
+
         split_off_first_chunk::<2>(src).ok_or_else(unexpected_eof)?;
         let ty = src.split_off_first().ok_or_else(unexpected_eof)?;
 
@@ -125,6 +136,8 @@ fn validate(src: &mut &[u8]) -> io::Result<()> {
             }
             _ => return Err(io::Error::new(io::ErrorKind::InvalidInput, "invalid type")),
         }
+
+        f(&buf[..buf.len() - src.len()]);
     }
 
     Ok(())
